@@ -258,6 +258,10 @@ func (msg *MessageAuth) FromBytes(src []byte) error {
 	for i := 0; i < q; i++ {
 		chunk = &MessageChunk{}
 		p = i * (MessageChunkBytesMax + 2)
+		if l < p+2 {
+			// no room for another chunk header (l is a multiple of the full chunk size)
+			return ErrIncorrectSourceBytes
+		}
 
 		chunk.Length = src[p]
 		if (q > 1 && i < q-1 && int(chunk.Length) != MessageChunkBytesMax) ||
@@ -296,6 +300,10 @@ func (msg *MessageAuth) FromChunks(chunks []*MessageChunk) error {
 	var foundDelimiter bool
 	for i, b := range src {
 		if b == MessageChunkBytesDelimiter {
+			if i+1 >= len(src) {
+				// the delimiter is the last byte: no public key and parity follow
+				break
+			}
 			msg.Username = string(src[:i])
 			msg.PublicKeyBytes = src[i+1 : len(src)-1]
 			msg.PublicKeyParity = src[len(src)-1]
